@@ -51,6 +51,9 @@ def run_one(sid, tier="quick"):
         sh(["git", "-C", "/repo", "worktree", "remove", "--force", SCRATCH])
         # evidence files written during a seeded run describe the scratch copy: restore the committed ones
         sh(["git", "-C", HERE, "checkout", "--", "evidence"])
+        # point the harness manifest back at /repo (it was generated for the scratch copy)
+        tin = os.path.join(HERE, "harness", "Cargo.toml.in")
+        open(os.path.join(HERE, "harness", "Cargo.toml"), "w").write(open(tin).read().replace("@REPO@", "/repo"))
 
 
 def main():
